@@ -9,7 +9,7 @@ import MlModel.Model.PipeLib
   wrapped by `iter_ignore_error` (`Impl.pwi` with `skip`).
 * (F-C12-passed-on — a skippable error that reaches `Assign` / `FilterFn` / `Sink` from upstream made
   `processed_with_inputs` pop an input that was never buffered, `IndexError('No element left')` — is
-  **repaired** (`fix:` b939c97: the input iterator is wrapped in `iter_ignore_error` before it is teed;
+  **repaired** (`fix:` 323e959: the input iterator is wrapped in `iter_ignore_error` before it is teed;
   `Impl.passedOnFixed`, `Impl.annotSkip`).  The model is the repaired code; the theorems are
   `C12_skip_any_partial`, `C12_passed_on_uniform`, `C12_skip_source_partial` in `Properties/C12.lean`;
   `C12_passed_on_repaired` below evaluates the former witness instance on the repaired model, and the
